@@ -14,7 +14,7 @@
 // the DATA payload `B: Buf` as the byte sequences still to be written; `tokio_util::io::poll_write_buf` on the cursor and
 // on `cursor.chain(payload)` (writes SOME prefix — any length 0..=remaining — and advances by it; Pending / Err write
 // nothing); `frame::Continuation::encode` under the frame-size limit (moves a prefix of the block into the buffer, returns
-// the rest: Kani unit hdr_encode_frame_size_continuation).  Listed substitutions: `ready!(e)?` written out; `Pin::new(&mut
+// the rest: Verus unit v_headers_encode on the real bodies, Kani unit hdr_encode_frame_size_continuation).  Listed substitutions: `ready!(e)?` written out; `Pin::new(&mut
 // self.inner)` => `self.inner`; the two poll_write_buf calls => the two model functions; `limited_write_buf!(self)` and
 // `frame.encode(&mut buf)` => `encode_continuation(frame, &mut self.buf)`; `self.buf.set_position(0);
 // self.buf.get_mut().clear();` => `self.buf.reset()`.
